@@ -553,9 +553,15 @@ def _o4(ctx, R, match_fact):
             else:
                 ctx.violation("O4", f, "unmatched-mutation:%s" % kind, "%s can execute `%s` for an entry whose name was not matched" % (
                     f.qualname, norm(st)[:50]), node=st, witness="an operation on an unknown name modifies another filter")
-        # the last statement (no match) returns a falsy constant
+        # whatever is not a falsy constant is returned on the name-match edge only: an unknown name gets False / None
+        rets_ = [r for r in walk_no_nested(f.node) if isinstance(r, ast.Return)]
+        truthy = [r for r in rets_ if r.value is not None and const_value(ctx.program, f, r.value) not in (False, None)]
+        falsy = [r for r in rets_ if r not in truthy]
         last = f.node.body[-1]
-        if isinstance(last, ast.Return) and (last.value is None or const_value(ctx.program, f, last.value) in (False, None)):
+        if truthy and falsy and all(cfg.guarded(x, pred) for r in truthy for x in cfg.nodes_for(r)) and any(
+                not cfg.guarded(x, pred) for r in falsy for x in cfg.nodes_for(r)):
+            ctx.holds("O4", "%s: every result other than False/None is returned on the name-match edge" % f.qualname)
+        elif isinstance(last, ast.Return) and (last.value is None or const_value(ctx.program, f, last.value) in (False, None)):
             ctx.holds("O4", "%s: falls through to `return %s` when nothing matched" % (f.qualname, norm(last.value) if last.value else "None"))
         elif op in ("updatefilter", "replacefilter"):
             # `if not filter_def: return False` form
